@@ -3,7 +3,20 @@
 // kernel.
 package vsys
 
-import "syscall"
+import (
+	"syscall"
+
+	"github.com/elastic/go-libaudit/v2/vshim/sched"
+)
+
+// A system call is a visible operation: under a controlled execution each one is
+// a scheduling point (so that e.g. a shared scratch buffer filled before Sendto
+// and read by it is interleaved with other threads).
+func pt(op string) {
+	if sched.Cur() != nil {
+		sched.Point(sched.OpUser, op, nil, nil)
+	}
+}
 
 // Impl is a simulated socket layer.
 type Impl interface {
@@ -42,6 +55,7 @@ func Getsockname(fd int) (syscall.Sockaddr, error) {
 }
 
 func Sendto(fd int, p []byte, flags int, to syscall.Sockaddr) error {
+	pt("sendto")
 	if impl != nil {
 		return impl.Sendto(fd, p, flags, to)
 	}
@@ -49,6 +63,7 @@ func Sendto(fd int, p []byte, flags int, to syscall.Sockaddr) error {
 }
 
 func Recvfrom(fd int, p []byte, flags int) (int, syscall.Sockaddr, error) {
+	pt("recvfrom")
 	if impl != nil {
 		return impl.Recvfrom(fd, p, flags)
 	}
@@ -56,6 +71,7 @@ func Recvfrom(fd int, p []byte, flags int) (int, syscall.Sockaddr, error) {
 }
 
 func Close(fd int) error {
+	pt("close")
 	if impl != nil {
 		return impl.Close(fd)
 	}
